@@ -178,10 +178,10 @@ Lemma import_ok : forall m b t t', import_ m b t = (t', Ok) ->
   stored t' = stored t ++ map (fun p => (d_id (fst p), (Some (snd p), mode_flag m))) (b_dsets b) /\
   (forall n, In n (bundle_ids b) -> is_stored n t = false).
 Proof.
-  intros m b t t'. unfold import_. destruct (register b t) as [t0 oe] eqn:Er.
+  intros m b t t'. unfold import_, import_v. destruct (register b t) as [t0 oe] eqn:Er.
   apply register_same in Er. destruct Er as (_ & Hs & Hst & _ & _).
   destruct oe; [intros H; inversion H|].
-  unfold load. pose proof (add_dims_ds (b_dims b) t0) as [Ha1 Ha2].
+  unfold load_v. pose proof (add_dims_ds (b_dims b) t0) as [Ha1 Ha2].
   destruct (foldr import_one (map fst (b_dsets b)) (add_dims (b_dims b) t0)) as [t2|] eqn:Ef; [|intros H; inversion H].
   apply foldr_import_dsets in Ef. destruct Ef as [Ef1 Ef2].
   destruct (existsb (fun n => is_stored n t2) (bundle_ids b)) eqn:Ex; [intros H; inversion H|].
@@ -221,10 +221,10 @@ Qed.
 Lemma import_conflict_refused : forall m b t d v d',
   In (d, v) (b_dsets b) -> find_id (d_id d) (dsets t) = Some d' -> d <> d' -> snd (import_ m b t) <> Ok.
 Proof.
-  intros m b t d v d' Hin Hf Hne. unfold import_. destruct (register b t) as [t0 oe] eqn:Er.
+  intros m b t d v d' Hin Hf Hne. unfold import_, import_v. destruct (register b t) as [t0 oe] eqn:Er.
   apply register_same in Er. destruct Er as (_ & Hs & _).
   destruct oe; [simpl; discriminate|].
-  unfold load. pose proof (add_dims_ds (b_dims b) t0) as [Ha1 _].
+  unfold load_v. pose proof (add_dims_ds (b_dims b) t0) as [Ha1 _].
   destruct (foldr import_one (map fst (b_dsets b)) (add_dims (b_dims b) t0)) as [t2|] eqn:Ef; [|simpl; discriminate].
   exfalso. apply (foldr_import_conflict (map fst (b_dsets b)) (add_dims (b_dims b) t0) d d') with (t' := t2); auto.
   - apply in_map_iff. exists (d, v). split; [reflexivity | exact Hin].
@@ -265,6 +265,6 @@ Qed.
 Lemma exim_ok_datasets : forall m ids cs src t t', exim m ids cs src t = (t', Ok) ->
   forall d, In d (dsets t') <-> In d (dsets t) \/ (In d (dsets src) /\ memN (d_id d) ids = true).
 Proof.
-  intros m ids cs src t t'. unfold exim. destruct (export ids cs src) as [b|e] eqn:Ex; [|intros H; inversion H].
-  intros H d. destruct (import_ok _ _ _ _ H) as [Hd _]. rewrite Hd, (export_dsets _ _ _ _ Ex). tauto.
+  intros m ids cs src t t'. unfold exim, exim_v. destruct (export ids cs src) as [b|e] eqn:Ex; [|intros H; inversion H].
+  fold (import_ m b t). intros H d. destruct (import_ok _ _ _ _ H) as [Hd _]. rewrite Hd, (export_dsets _ _ _ _ Ex). tauto.
 Qed.
